@@ -26,6 +26,8 @@ SELFTEST_MAP = {
     "saturating_checked_shl.patch": ["C12"],
     "varnamemap_derived_clone.patch": ["C16"],
     "f64_parse_unnormalised.patch": ["C10"],
+    "eval_zbdd_counter_not_decremented.patch": ["C02", "C09"],
+    "eval_bdd_choice_polarity.patch": ["C02"],
     "pointer_handle_wrong_data_type.patch": ["C05", "C20"],
     "dddmp_unchecked_index.patch": ["C15"],
     "dddmp_unchecked_sub.patch": ["C15"],
